@@ -139,14 +139,22 @@ struct Node {
     addr: SocketAddr,
     st: Arc<Mutex<State>>,
     clock: Arc<AtomicU64>,
-    task: tokio::task::JoinHandle<()>,
+    task: Option<tokio::task::JoinHandle<()>>,
+    /// a node running on its own OS thread and its own runtime (race cases): stop signal + thread
+    own: Option<(tokio::sync::oneshot::Sender<()>, std::thread::JoinHandle<()>)>,
 }
 
 impl Drop for Node {
     fn drop(&mut self) {
-        self.task.abort();
+        if let Some(t) = &self.task {
+            t.abort();
+        }
         for c in self.st.lock().unwrap().conns.iter() {
             c.kill.notify_one();
+        }
+        if let Some((stop, th)) = self.own.take() {
+            let _ = stop.send(());
+            let _ = th.join();
         }
     }
 }
@@ -255,7 +263,7 @@ impl Node {
                 });
             }
         });
-        Node { addr, st, clock, task }
+        Node { addr, st, clock, task: Some(task), own: None }
     }
 
     fn answer_query(s: &mut State, conn: usize, text: &str, clock: &AtomicU64) -> Reply {
@@ -312,8 +320,28 @@ impl Node {
     }
 
     /// The node resets every connection (so that neither side lingers in TIME_WAIT) and stops accepting.
+    /// The same node on its own OS thread with its own current-thread runtime, so that the driver under
+    /// test and the scripted node do not share a scheduler.
+    fn start_on_own_thread(shards: Option<u16>) -> Node {
+        let (tx, rx) = std::sync::mpsc::channel();
+        let (stop_tx, stop_rx) = tokio::sync::oneshot::channel::<()>();
+        let th = std::thread::spawn(move || {
+            let rt = tokio::runtime::Builder::new_current_thread().enable_all().build().unwrap();
+            rt.block_on(async move {
+                let node = Node::start(shards).await;
+                tx.send((node.addr, Arc::clone(&node.st), Arc::clone(&node.clock))).unwrap();
+                let _ = stop_rx.await;
+                node.close_all().await;
+            });
+        });
+        let (addr, st, clock) = rx.recv().unwrap();
+        Node { addr, st, clock, task: None, own: Some((stop_tx, th)) }
+    }
+
     async fn close_all(&self) {
-        self.task.abort();
+        if let Some(t) = &self.task {
+            t.abort();
+        }
         for c in self.st.lock().unwrap().conns.iter() {
             c.kill.notify_one();
         }
@@ -763,7 +791,11 @@ async fn run_pool(w: &[&str], race: bool, progress: &Mutex<String>, peek: &Mutex
     if init.is_some_and(|i| i >= names.len() || !spec_valid(&names[i].0)) {
         return None;
     }
-    let node = Node::start(if sharded { Some(n) } else { None }).await;
+    let node = if race && std::env::var_os("C20_NODE_SAME_RUNTIME").is_none() {
+        Node::start_on_own_thread(if sharded { Some(n) } else { None })
+    } else {
+        Node::start(if sharded { Some(n) } else { None }).await
+    };
     *peek.lock().unwrap() = Some(Arc::clone(&node.st));
     let size = if sharded {
         scylla::client::PoolSize::PerShard(NonZeroUsize::new(1).unwrap())
